@@ -5,8 +5,9 @@ import fsgen
 
 class C12(PropertyCheck):
     pid = "C12"
-    rule = ("streams: corpus (hand-written and minimised cases); histories of write/read/exists/file_exists/directory_exists/resolve/"
-            "create_dir/list/subdirectories (<= 25 calls quick, <= 120 thorough) on 1-4 real temp-directory layers with colliding trees, "
+    rule = ("streams: corpus (hand-written and minimised cases); every history up to length 2 (thorough 3) over a 13-call alphabet on three "
+            "colliding paths from five two-layer states; random histories of write/read/exists/file_exists/directory_exists/resolve/"
+            "create_dir/list/subdirectories and the typed helpers (<= 25 calls quick, <= 120 thorough) on 1-4 real temp-directory layers with colliding trees, "
             "localized and not, payloads empty/tiny/compressible/incompressible/around the LZ length thresholds, names with and without "
             "the game's compressed suffix, rotating games x languages (thorough: all 5 x 8); the configuration table exhaustively "
             "(7 games x 8 languages x 0-2 layers).  Non-trivial = the history contains a successful read or write; distinct = distinct case line.")
@@ -23,7 +24,7 @@ class C12(PropertyCheck):
 
     def generate(self, rng, tier):
         n = 3000 if tier == "quick" else 15000
-        cases = fsgen.gen_cases(rng, tier, "c12", n, "histories")
+        cases = fsgen.exhaustive_cases(tier) + fsgen.gen_cases(rng, tier, "c12", n, "histories")
         for g in range(7):
             for l in range(8):
                 for nl in range(3):
